@@ -337,4 +337,70 @@ def plan_C05(tier):
     return qs, info
 
 
-PLANS = {"C04": plan_C04, "C05": plan_C05, "C06": plan_C06, "C01": plan_C01, "C02": plan_C02}
+def print_query(propset, pmode, n, D, root, tcap=40, timeout=2400, extra=None, name_extra=""):
+    name = "print.p%d.m%d.n%d.D%d.%s%s" % (propset, pmode, n, D, "obj" if root == 1 else "arr", name_extra)
+    defs = {"NB": n, "DEPTH": D, "ROOT": root, "PMODE": pmode, "TCAP": tcap,
+            "WIT_VALID": 1 if valid_exists(root, n) else 0}
+    if pmode == 1:
+        defs["FMT_LENGTH_ONLY"] = 1
+    defs.update(extra or {})
+    cb = "_binson_print_cb" if pmode == 3 else "_binson_to_string_cb"
+    rfp = [("_advance_parsing.function_pointer_call.%d" % i, cb) for i in (1, 2, 3)]
+    copies = 2 if pmode == 1 else 1
+    return Query(name, "h_print.c", defines=defs, sources=("parser",), with_print=True,
+                 unwindset={"_advance_parsing.0": adv(n), "_parse_integer.0": 9, "memcmp.0": n + 2,
+                            "_binson_to_string_cb.0": n + 1, "_binson_print_cb.0": n + 1},
+                 unwind=max(n + 3, 70), checks="mem" if propset == 13 else "func", timeout=timeout,
+                 mem_gb=2 + 0.5 * n * copies, restrict_fp=rfp,
+                 tags={"n": n, "D": D, "root": "object" if root == 1 else "array", "family": "H-PRINT",
+                       "capacity": "symbolic 0..%d" % tcap if pmode == 1 else tcap}, group="h_print.m%d" % pmode)
+
+
+def plan_C13(tier):
+    qs = []
+    ns = (2, 5, 6) if tier == "quick" else (2, 5, 6, 7, 8)
+    for n in ns:
+        for root in (1, 2):
+            if tier == "quick" and root == 2 and n == 6:
+                continue
+            qs.append(print_query(13, 1, n, 2, root))
+    if tier == "quick":
+        qs.append(print_query(13, 1, 4, 2, 2))
+    else:
+        qs += [print_query(13, 1, 3, 2, 2), print_query(13, 1, 4, 2, 2)]
+    info = {
+        "rule": "one query per (n, root): arbitrary n-byte buffers, capacity symbolic in 0..40, NULL size query followed by the "
+                "real call; snprintf is the contract model model/libc_fmt.h which asserts that every store lands below the capacity.",
+        "bounds": {"n": list(ns), "D": 2, "capacity": [0, 40]},
+        "outside": ["documents longer than %d bytes" % max(ns), "texts longer than 39 characters",
+                    "real glibc digit strings (lengths of %lf are modelled 3..66)", "binson.cpp::toStr"],
+        "assumptions": ["snprintf/printf behave as their C99 contract (model/libc_fmt.h)"],
+    }
+    return qs, info
+
+
+def plan_C14(tier):
+    qs = []
+    ns = (5, 6, 7) if tier == "quick" else (5, 6, 7, 8, 9, 10)
+    for n in ns:
+        for root in (1, 2):
+            if root == 2 and n > 8:
+                continue
+            qs.append(print_query(14, 2, n, 2, root, tcap=48))
+            if tier != "quick" or n <= 6:
+                qs.append(print_query(14, 3, n, 2, root, tcap=48))
+    if tier == "quick":
+        # the smallest document with a sibling after a nested empty object needs 10 bytes: {"":{},"a":true}
+        qs.append(print_query(14, 2, 10, 2, 1, tcap=48, extra={"SK_LEN": 6, "SK_BYTES": "0x40,0x14,0x00,0x40,0x41,0x14"}, name_extra=".sk_nested_obj"))
+    info = {
+        "rule": "one query per (n, root): all valid n-byte documents; text produced by to_string (ample capacity) and the "
+                "captured output of print compared byte for byte with the reference renderer.",
+        "bounds": {"n": list(ns), "D": 2},
+        "outside": ["documents longer than %d bytes" % max(ns), "real glibc digit strings"],
+        "assumptions": ["snprintf/printf behave as their C99 contract (model/libc_fmt.h)",
+                        "reference renderer model/ref_render.h is the specification of the text"],
+    }
+    return qs, info
+
+
+PLANS = {"C13": plan_C13, "C14": plan_C14, "C04": plan_C04, "C05": plan_C05, "C06": plan_C06, "C01": plan_C01, "C02": plan_C02}
